@@ -57,20 +57,21 @@ func runWitnesses(c *vlib.Collector, env *createEnv, id int) int {
 	base := func(w *world) createIn {
 		return createIn{w: w, cfg: env.cas[0], xdsAuth: true, hasPeer: true, tls: true, csr: okCSR(11), validity: 3600}
 	}
-	// 1. authorised impersonation whose trust-domain part smuggles extra SAN entries
+	// 1. authorised impersonation whose trust-domain part carries commas (regression of the fixed
+	//    finding C09-K4-comma-identity-extra-sans: must be a signing error now)
 	in := base(env.worlds[1])
 	in.auth = []authSpec{{hasCaller: true, ids: []string{"spiffe://cluster.local/ns/istio-system/sa/ztunnel"}, k: zt}}
 	in.md = []kv{{security.ImpersonatedIdentity, mdVal{kind: "str", s: "spiffe://cluster.local,istiod.istio-system.svc,x/ns/foo/sa/bar"}}}
 	in.clusterIDs = []string{"c1"}
 	id++
-	if c.Wanted(id) || c.Wanted(id+sansCompanionOffset) {
+	if c.Wanted(id) || c.Wanted(id+tdCompanionOffset) {
 		execCreate(c, id, env, in)
 	}
-	// 2. an authenticated identity containing a comma
+	// 2. an authenticated identity containing a comma (refused as well)
 	in = base(env.worlds[0])
 	in.auth = []authSpec{{hasCaller: true, ids: []string{"spiffe://cluster.local/ns/foo/sa/bar,istiod.istio-system.svc"}}}
 	id++
-	if c.Wanted(id) || c.Wanted(id+sansCompanionOffset) {
+	if c.Wanted(id) || c.Wanted(id+tdCompanionOffset) {
 		execCreate(c, id, env, in)
 	}
 	// 3. the same impersonation without commas (must be issued with exactly that identity)
@@ -79,14 +80,24 @@ func runWitnesses(c *vlib.Collector, env *createEnv, id int) int {
 	in.md = []kv{{security.ImpersonatedIdentity, mdVal{kind: "str", s: "spiffe://cluster.local/ns/foo/sa/bar"}}}
 	in.clusterIDs = []string{"c1"}
 	id++
-	if c.Wanted(id) || c.Wanted(id+sansCompanionOffset) {
+	if c.Wanted(id) || c.Wanted(id+tdCompanionOffset) {
 		execCreate(c, id, env, in)
 	}
 	// 4. one empty identity (accepted by the authentication manager: the list is not empty)
 	in = base(env.worlds[0])
 	in.auth = []authSpec{{hasCaller: true, ids: []string{""}}}
 	id++
-	if c.Wanted(id) || c.Wanted(id+sansCompanionOffset) {
+	if c.Wanted(id) || c.Wanted(id+tdCompanionOffset) {
+		execCreate(c, id, env, in)
+	}
+	// 5. impersonation of a workload on the node under a foreign trust domain (open finding
+	//    C09-impersonation-trust-domain-unchecked)
+	in = base(env.worlds[1])
+	in.auth = []authSpec{{hasCaller: true, ids: []string{"spiffe://cluster.local/ns/istio-system/sa/ztunnel"}, k: zt}}
+	in.md = []kv{{security.ImpersonatedIdentity, mdVal{kind: "str", s: "spiffe://other.td/ns/foo/sa/bar"}}}
+	in.clusterIDs = []string{"c1"}
+	id++
+	if c.Wanted(id) || c.Wanted(id+tdCompanionOffset) {
 		execCreate(c, id, env, in)
 	}
 	return id
@@ -262,12 +273,7 @@ func runOidc(t *testing.T, c *vlib.Collector, r *vlib.Rand, id int) int {
 		panicked, pmsg := vlib.Recover(func() { caller, aerr = an.a.Authenticate(security.AuthContext{GrpcContext: ctx}) })
 		obs, otag := pAuthn(caller, aerr, panicked)
 		if panicked {
-			fid := ""
-			if verified && strings.HasPrefix(s, "system:serviceaccount") && len(strings.Split(s, ":")) < 4 {
-				fid = findOidc
-				c.FindingOf[id] = findOidc
-			}
-			c.Violate(vlib.Violation{ID: id, Kind: "panic", Finding: fid,
+			c.Violate(vlib.Violation{ID: id, Kind: "panic",
 				Detail: fmt.Sprintf("JwtAuthenticator.Authenticate panicked on a verified token with sub=%q: %s", s, pmsg)})
 		}
 		term := vlib.App("Oidc", vlib.NI(id), vlib.B(verified), vlib.Str(an.td), pStrs(an.auds), vlib.Str(s), audTerm, obs)
@@ -547,11 +553,9 @@ func runXfcc(t *testing.T, c *vlib.Collector, r *vlib.Rand, id int) int {
 
 		// the standard-library facts about the address (model input)
 		shape := "AddrNoPort"
-		nonIPHost := false
 		if host, _, err := net.SplitHostPort(addr); err == nil {
 			ip, perr := netip.ParseAddr(host)
 			isIP := perr == nil
-			nonIPHost = !isIP
 			var ins []string
 			for _, cd := range cidrs {
 				if !strings.Contains(cd, "/") {
@@ -571,12 +575,7 @@ func runXfcc(t *testing.T, c *vlib.Collector, r *vlib.Rand, id int) int {
 		panicked, pmsg := vlib.Recover(func() { caller, aerr = a.Authenticate(security.AuthContext{GrpcContext: ctx}) })
 		obs, otag := pAuthn(caller, aerr, panicked)
 		if panicked {
-			fid := ""
-			if nonIPHost && !headerAbsent {
-				fid = findXfccAddr
-				c.FindingOf[id] = findXfccAddr
-			}
-			c.Violate(vlib.Violation{ID: id, Kind: "panic", Finding: fid,
+			c.Violate(vlib.Violation{ID: id, Kind: "panic",
 				Detail: fmt.Sprintf("XfccAuthenticator.Authenticate panicked for peer address %q (trusted CIDRs %v): %s", addr, cidrs, pmsg)})
 		}
 		term := vlib.App("Xfcc", vlib.NI(id), vlib.B(addrEmpty), vlib.B(headerAbsent), shape, parsedTerm, obs)
